@@ -13,6 +13,7 @@ Every conversion unit of the binding crate is classified:
   U2  every fn of an inherent `impl ffi::T` block       (measurement -> binding constructors)
   U3  free fns named `convert_*`
   U4  every other `match` whose patterns name enum variants
+  U5  every struct literal of a binding type (`ffi::T { .. }`) written inline in any other function
 into
   * an ENUM TABLE   (match over variants: list of (source variant, target variant), wildcard flag,
                      variant lists of both enums, pinned fallbacks),
@@ -190,7 +191,8 @@ def find_out_dir():
     os.makedirs(os.path.join(VERIF, ".cache"), exist_ok=True)
     # the guard cfg is passed to the dnp3-ffi crate only (`cargo rustc ... -- --cfg dnp3_verif`), so that
     # dnp3 itself is built exactly as a production dependency; same command as tools/props/c20.py
-    env = dict(os.environ, CARGO_NET_OFFLINE="true", CARGO_TARGET_DIR=TARGET_FFI)
+    env = dict(os.environ, CARGO_NET_OFFLINE="true", CARGO_TARGET_DIR=TARGET_FFI,
+               CARGO_PROFILE_DEV_DEBUG="0", CARGO_PROFILE_TEST_DEBUG="0")   # no debug info: a third of the disk use
     env.pop("RUSTFLAGS", None)
     with open(os.path.join(VERIF, ".cache", "cargo_ffi.lock"), "w") as lf:
         fcntl.flock(lf, fcntl.LOCK_EX)
@@ -346,12 +348,14 @@ class Ctx:
         self.src_type, self.dst_type, self.self_type = src_type, dst_type, self_type
         self.env = {}                   # let-bound identifier -> expression text
         self.conv = True                # inside a conversion unit (U1-U3); False for a free-standing match (U4)
+        self.any_root = False           # U5: every local identifier is a source, and is part of its chain
 
     def sub(self, suffix, roots=None):
         c = Ctx(self.file, self.unit + suffix, self.line, self.roots if roots is None else roots,
                 self.src_type, self.dst_type, self.self_type)
         c.env = dict(self.env)
         c.conv = self.conv
+        c.any_root = self.any_root
         return c
 
     def where(self):
@@ -613,8 +617,9 @@ def chains_of(expr, ctx, depth=0):
         after = expr[m.end():]
         if re.match(r"\s*:(?!:)", after):
             continue
-        if name in ctx.roots:
-            segs = []
+        if name in ctx.roots or (ctx.any_root and name not in ctx.env and name[0].islower()
+                                 and name not in ("true", "false", "as", "mut", "ref", "move", "unsafe", "if", "else", "match", "return")):
+            segs = [norm(name)] if ctx.any_root else []
             p = m.end()
             while True:
                 sm = re.match(r"\s*\.\s*(%s|\d+)" % IDENT, expr[p:])
@@ -1080,6 +1085,41 @@ def walk_unit(model, rel, text, base_line, tag):
         ctx = Ctx(rel, unit, base_line if tag else line_of(text, fm.start()), roots, None, ret.group(1).strip() if ret else None)
         process_body(model, ctx, text[bo + 1:bc], unit, text[fm.start():bc + 1])
         covered.append((fm.start(), bc))
+    # U5: struct literals of binding types written inline in other functions
+    for lm in re.finditer(r"(?<![\w:])(?:crate\s*::\s*)?ffi\s*::\s*(%s)\s*\{" % IDENT, text):
+        if any(s_ <= lm.start() <= e_ for s_, e_ in covered):
+            continue
+        before = text[:lm.start()].rstrip()
+        if before.endswith("->") or re.search(r"\b(for|impl|match|in)$", before) or before.endswith("&"):
+            continue
+        o = lm.end() - 1
+        c = close_of(text, o)
+        after = re.match(r"\s*=>", text[c + 1:])
+        if after:
+            continue           # a struct pattern of a match arm
+        end = c + 1
+        im = re.match(r"\s*\.\s*into\s*\(\s*\)", text[end:])
+        if im:
+            end += im.end()
+        lit = text[lm.start():end]
+        enclosing = None
+        for fm in re.finditer(r"\bfn\s+(%s)\b" % IDENT, text[:lm.start()]):
+            enclosing = fm.group(1)
+        k = 1 + sum(1 for n in model.names if n.startswith("%s::%sfn %s::literal ffi::%s" % (rel, (tag + "::") if tag else "", enclosing, lm.group(1))))
+        unit = "%s::%sfn %s::literal ffi::%s#%d" % (rel, (tag + "::") if tag else "", enclosing, lm.group(1), k)
+        ctx = Ctx(rel, unit, base_line if tag else line_of(text, lm.start()), [])
+        ctx.any_root = True
+        snap = model.snapshot()
+        try:
+            add_struct_table(model, ctx, lit)
+            if unit in model.skipped:
+                model.problems.append("%s: %r is on the skip list but is understood by the translator: remove it" % (ctx.where(), unit))
+        except (Unknown, ValueError) as u:
+            model.rollback(snap)
+            if not model.try_skip(unit, lit, ctx.where()):
+                model.problems.append("%s: %s: struct literal not understood (%s); teach gen_ffi.py or list it in ffi_skipped.json as\n"
+                                      "    %s: {\"sha\": \"%s\", \"why\": \"...\"}" % (ctx.where(), unit, u, json.dumps(unit), sha(lit)))
+        covered.append((lm.start(), end))
     # U4: every other match
     fn_spans = []
     for fm in re.finditer(r"\bfn\s+(%s)\s*(?:<[^>(]*>)?\s*\(" % IDENT, text):
@@ -1138,16 +1178,6 @@ def walk_unit(model, rel, text, base_line, tag):
 
 def glob_match(pattern, name):
     return re.fullmatch(re.escape(pattern).replace(r"\*", ".*"), name) is not None
-
-
-def lookup_pins(section, tname):
-    """entries of a pin section that apply to table `tname` (keys may contain `*`)"""
-    out = {}
-    for key, ent in section.items():
-        if key == "*" or glob_match(key, tname):
-            for k, v in ent.items():
-                out[k] = v
-    return out
 
 
 def attach_pins(model):
